@@ -450,6 +450,7 @@ def c10(rep, tier):
     if text_e is None:
         A.unknown('get_replacement: TEMP_VAL', 'no assignment to .text found')
         return
+    text_e = mm.M.inline_value(gr, text_e)
     deps_tok, deps_other, lits, has_pass = set(), [], [], False
     for x in walk_expr(text_e):
         if x.get('k') == 'str':
@@ -683,10 +684,26 @@ def c09(rep, tier):
         ok = False
         why = 'no INSERTION case'
         if ci is not None:
-            inss = [e for s in ci['s'] for e in walk_all_exprs(s) if is_call(e, '::insert')]
+            # the ways of appending a whole sequence: result.insert(result.end(), X.begin(), X.end()),
+            # std::copy(X.begin(), X.end(), std::back_inserter(result)), for (t : X) result.push_back(t)
+            inss = []      # (source expression, appended at the end?)
+            for s_ in ci['s']:
+                for e in walk_all_exprs(s_):
+                    if is_call(e, '::insert') and len(e.get('args', [])) == 3:
+                        a = strip_conv(e['args'][1])
+                        inss.append((strip_casts(a['obj']) if is_call(a, '::begin') else None, is_call(strip_conv(e['args'][0]), '::end')))
+                    elif (e.get('k') == 'call' and (e.get('callee') or '') in ('std::copy', 'std::ranges::copy') and len(e.get('args', [])) == 3):
+                        a, b_, o_ = (strip_conv(x) for x in e['args'])
+                        same = is_call(a, '::begin') and is_call(b_, '::end') and show(strip_casts(a['obj'])) == show(strip_casts(b_['obj']))
+                        inss.append((strip_casts(a['obj']) if same else None, (o_.get('callee') or '').startswith('std::back_inserter')))
+                for st_ in walk_stmts(s_):
+                    if st_['k'] == 'rangefor':
+                        pbs = [x for x in walk_all_exprs(st_['body']) if is_call(x, '::push_back')]
+                        if len(pbs) == 1 and strip_casts(strip_copies(pbs[0]['args'][0])).get('d') == st_['var']['d']:
+                            inss.append((strip_casts(st_['range']), True))
+            why = 'the case appends %d sequences, expected one' % len(inss)
             if len(inss) == 1:
-                src = [mm.M.origin(gr, strip_casts(strip_conv(a)['obj'])) if is_call(strip_conv(a), '::begin') else None for a in inss[0]['args'][1:2]]
-                src = src[0] if src else None
+                src = mm.M.origin(gr, inss[0][0]) if inss[0][0] is not None else None
                 src = strip_casts(src) if src is not None else None
                 # resp.matched[def.template_token_indices[ind]]
                 if is_call(src, '::operator[]') and show(src['obj']).endswith('matched'):
@@ -712,7 +729,7 @@ def c09(rep, tier):
                         why = 'matched[] indexed by %s, not through template_token_indices' % show(idx)
                 else:
                     why = 'inserted tokens come from %s' % show(src)
-                endpos = is_call(strip_conv(inss[0]['args'][0]), '::end')
+                endpos = inss[0][1]
                 ok = ok and endpos
         E.check(ok, 'get_replacement: $n', 'appends matched[template_token_indices[n]] with n parsed from the text after "$"', why, W(gr, None, mm.facts))
         insertion_index_range_rule(E, mm)
